@@ -60,6 +60,10 @@ type consumerGroup struct {
 	Start      time.Time
 	LastNotify map[string]time.Time
 	LastEval   time.Time
+
+	// responseLock is held while an evaluation response for this group is checked and sent to the modules, so that the
+	// responses for one group are handled one at a time
+	responseLock sync.Mutex
 }
 
 type clusterGroups struct {
@@ -426,6 +430,13 @@ func (nc *Coordinator) checkAndSendResponseToModules(response *protocol.Consumer
 		// The group must have just been deleted
 		return
 	}
+
+	// Each response is handled in its own goroutine, holding only read locks. A second response for the same group that
+	// arrives while a module is still busy with the first one (a slow HTTP endpoint, for example) must wait its turn:
+	// otherwise it can close the incident underneath the first one, which then notifies the remaining modules with an
+	// empty event ID and start time, or ride on an incident that is just being closed
+	cgroup.responseLock.Lock()
+	defer cgroup.responseLock.Unlock()
 
 	if cgroup.Start.IsZero() && (response.Status > protocol.StatusOK) {
 		// New incident - assign an ID and start time
